@@ -35,11 +35,16 @@ def model_check(ctx, sd):
     one = ['"k1"']
     # A: two keys, single-point batches, write/snapshot/compact/delete/failed snapshot or compaction
     ctx.write_cfg(sd, "MCA.cfg", "Spec", mc_consts(), inv, "Bounded", extra=PROPS)
-    ctx.tlc_check(sd, "TSMRead", "MCA.cfg", workers=8, timeout=1200, coverage=not ctx.quick())
+    ra = ctx.tlc_check(sd, "TSMRead", "MCA.cfg", workers=8, timeout=1200, coverage=not ctx.quick())
     # B: one key, batches with duplicate / out-of-order timestamps, two snapshots (two files or file +
     # snapshot in flight + hot store), reopen
     ctx.write_cfg(sd, "MCB.cfg", "Spec", mc_consts(Keys=one, MaxBatch=2, MaxSnaps=2, MaxDeletes=0, MaxReopens=1), inv, "Bounded", extra=PROPS)
-    ctx.tlc_check(sd, "TSMRead", "MCB.cfg", workers=8, timeout=1200)
+    rb = ctx.tlc_check(sd, "TSMRead", "MCB.cfg", workers=8, timeout=1200, coverage=not ctx.quick())
+    if not ctx.quick():
+        # vacuity guard: every action of the module is taken in at least one of the two configs
+        never = set(ra.get("zero_coverage", [])) & set(rb.get("zero_coverage", []))
+        if never:
+            raise Infra("vacuity: actions never taken in MCA/MCB: %s" % sorted(never))
     # non-vacuity: files + in-flight snapshot + hot store at once must be reachable
     ctx.write_cfg(sd, "MCV.cfg", "Spec", mc_consts(Keys=one, MaxWrites=3, MaxSnaps=3, MaxDeletes=0, MaxCompacts=0, MaxFails=0),
                   ["NeverThreeLayers"], "Bounded")
